@@ -18,6 +18,7 @@ pub enum Profile {
     Metrics,
     Xor,
     Multi,
+    Pace,
 }
 
 #[derive(Clone, Debug)]
@@ -35,6 +36,8 @@ pub struct Gen {
     pub rng: Rng,
     pub cfg: GenCfg,
     next_handle: u32,
+    /// ids are never reused, whether or not the op that allocates them gets executed
+    next_id: Id,
 }
 
 struct Scratch {
@@ -70,7 +73,7 @@ const KIND_W: [(Kind, u32); 12] = [
 
 impl Gen {
     pub fn new(seed: u64, cfg: GenCfg) -> Gen {
-        Gen { rng: Rng::new(seed), cfg, next_handle: 1 }
+        Gen { rng: Rng::new(seed), cfg, next_handle: 1, next_id: 1 }
     }
 
     fn pick_kind(&mut self) -> Kind {
@@ -112,10 +115,20 @@ impl Gen {
         }
     }
 
-    fn scratch(&self, ex: &mut Exec, a: u8) -> Scratch {
+    fn scratch(&mut self, ex: &mut Exec, a: u8) -> Scratch {
         let reach: Vec<Id> = ex.w.reachable(a).iter().copied().collect();
         let avail = reach.iter().map(|i| (*i, ex.w.objs[i].kind, ex.w.objs[i].n)).collect();
-        Scratch { avail, next_id: ex.w.next_id }
+        self.next_id = self.next_id.max(ex.w.next_id);
+        Scratch { avail, next_id: self.next_id }
+    }
+    fn commit(&mut self, sc: &Scratch) {
+        self.next_id = self.next_id.max(sc.next_id);
+    }
+    fn take_ids(&mut self, ex: &Exec, n: u32) -> Id {
+        self.next_id = self.next_id.max(ex.w.next_id);
+        let f = self.next_id;
+        self.next_id += n;
+        f
     }
 
     fn gen_alloc(&mut self, sc: &mut Scratch) -> MOp {
@@ -387,6 +400,7 @@ impl Gen {
                 body.push(op);
             }
         }
+        self.commit(&sc);
         body
     }
 
@@ -406,12 +420,70 @@ impl Gen {
             body.push(al);
             body.push(MOp::SetS { p: Ref::Root, slot: self.rng.below(ROOT_S) as u8, c: Some(id), mode: 0, thin: self.rng.chance(1, 3) });
         }
+        self.commit(&sc);
         body
+    }
+
+    /// pacing workload: large bursts, chains of survivors, mostly debt-driven calls
+    fn next_pace_op(&mut self, ex: &mut Exec, a: u8, step: usize) -> Op {
+        if step == 0 || self.rng.chance(1, 60) {
+            let mut p = self.pacing_spec();
+            p.min_sleep = [0, 1, 4, 16, 64, 256][self.rng.below(6)];
+            if self.rng.chance(1, 8) {
+                // extremal rho
+                let r = 0.95;
+                p.mark = 0.1 * r;
+                p.trace = 0.8 * r;
+                p.keep = 0.1 * r;
+                p.drop = 0.5 * r;
+                p.free = 0.5 * r;
+            }
+            if self.rng.chance(1, 10) {
+                p.keep = 0.0;
+            }
+            return Op::SetPacing { a, p };
+        }
+        let burst = [1u32, 2, 8, 8, 30, 64, 150, 400][self.rng.below(8)];
+        match self.rng.weighted(&[22, 18, 6, 4, 30, 8, 8, 5, 3, 2, 1]) {
+            0 => {
+                let first_id = self.take_ids(ex, burst);
+                Op::Cb { a, kind: CbKind::Mutate, body: vec![MOp::Burst { n: burst, kind: if self.rng.chance(1, 2) { Kind::Leaf } else { Kind::RCell }, first_id }] }
+            }
+            1 => {
+                let first_id = self.take_ids(ex, burst);
+                Op::Cb { a, kind: CbKind::MutateRoot, body: vec![MOp::Chain { n: burst.min(150), first_id, slot: self.rng.below(3) as u8 }] }
+            }
+            2 => {
+                // drop a whole chain (optionally keeping a weak pointer to its head: shells)
+                let slot = self.rng.below(3) as u8;
+                let head = ex.w.strong_slot(a, Ref::Root, slot as usize).flatten();
+                let mut body = Vec::new();
+                if let (Some(h), true) = (head, self.rng.chance(1, 2)) {
+                    body.push(MOp::SetW { p: Ref::Root, slot: self.rng.below(ROOT_W) as u8, c: Some(h), mode: 0 });
+                }
+                body.push(MOp::SetS { p: Ref::Root, slot, c: None, mode: 0, thin: false });
+                Op::Cb { a, kind: CbKind::MutateRoot, body }
+            }
+            3 => {
+                let body = self.gen_body(ex, a, false, false);
+                Op::Cb { a, kind: CbKind::Mutate, body }
+            }
+            4 => Op::Collect { a, op: COp::CycleDebt, fault: 0 },
+            5 => Op::Collect { a, op: COp::MarkDebt, fault: 0 },
+            6 => Op::Collect { a, op: COp::CollectDebt, fault: 0 },
+            7 => Op::Collect { a, op: COp::FinishCycle, fault: 0 },
+            8 => Op::Collect { a, op: if self.rng.chance(1, 2) { COp::FinishMarking } else { COp::MarkDebtSweep }, fault: 0 },
+            9 => Op::Audit { a },
+            _ => Op::AdjustDebt { a, amt: if self.rng.chance(1, 2) { 3.0 } else { -1.5 } },
+        }
     }
 
     /// next top-level op given the current state of the execution
     pub fn next_op(&mut self, ex: &mut Exec, step: usize) -> Op {
         let a = self.rng.below(self.cfg.n_arenas as usize) as u8;
+        if self.cfg.profile == Profile::Pace && ex.arenas[a as usize].is_some() {
+            return self.next_pace_op(ex, a, step);
+        }
         if ex.arenas[a as usize].is_none() {
             let via = match self.rng.below(10) {
                 0 => NewKind::TryNewOk,
@@ -502,11 +574,13 @@ impl Gen {
             7 => Op::DropArena { a },
             _ => {
                 // rootless_mutate: a few allocations, linked among themselves
-                let mut sc = Scratch { avail: Vec::new(), next_id: ex.w.next_id };
+                self.next_id = self.next_id.max(ex.w.next_id);
+                let mut sc = Scratch { avail: Vec::new(), next_id: self.next_id };
                 let mut body = Vec::new();
                 for _ in 0..(1 + self.rng.below(4)) {
                     body.push(self.gen_alloc(&mut sc));
                 }
+                self.commit(&sc);
                 Op::Rootless { body }
             }
         }
